@@ -147,6 +147,7 @@ type State struct {
 	Gen     int
 	Node    int32 // index in the explored state graph
 	PC      *Term
+	SPCN    int   // approximate size of SPC (number of conjunctions / disjunctions applied)
 	SPC     *Term // schedule constraints (s_k = choice), kept apart from the data path condition
 	Heap    map[ObjID]*Object
 	NextObj ObjID
